@@ -34,6 +34,7 @@ func runC01(l *core.Ledger) {
 	l.Rule("C01-R4", "exactly one quorum-function call site per loop, on the loop's own goroutine, preceded in each iteration by a reply-map write; the loop function is entered from one site")
 	l.Rule("C01-R5", "no quorum-function call is reachable after the function reported a quorum")
 	l.Rule("C01-R6", "every response handed to a caller carries c.node.ID() of the producing channel; only the stream reader attaches a message, taken from the message just received and routed under its own MessageID")
+	l.Rule("C01-R8", "reply routing discipline (C05-M1 unique ids per invocation from one atomic counter, M2 register-before-queue, M4 deliver-then-delete) re-run: a reply set can only hold replies to this call's own request")
 	l.Rule("C01-R7", "generated quorum/async stubs and their templates: QuorumFunction closure returns c.qspec.<M>QF(req.(*In), r) with r filled by one range over replies as r[k] = v.(*Out); the stub returns res.(*CustomOut) of the raw call's result")
 
 	loops := findReplyLoops(l, r, "C01-R1")
@@ -45,6 +46,15 @@ func runC01(l *core.Ledger) {
 	}
 	checkResponseProvenance(l, r, "C01-R6")
 	c01R7(l)
+	// R8: 'only the reply that this node's handler produced for this call's own
+	// request' presupposes the routing discipline of C05: unique ids, register
+	// before queue, deliver-then-delete
+	eps := findEntryPoints(l, r, "C01-R8")
+	l.With(map[string]string{"C05-M1": "C01-R8"}, func() { c05M1(l, r, eps) })
+	if rm := buildRouterModel(l, r, "C01-R8"); rm != nil {
+		l.With(map[string]string{"C05-M2": "C01-R8"}, func() { c05M2(l, r, rm) })
+		l.With(map[string]string{"C05-M4": "C01-R8"}, func() { checkDeliverDelete(l, r, rm, "C05-M4", false) })
+	}
 }
 
 // successPub is a place where a reply loop publishes a successful outcome.
@@ -109,8 +119,6 @@ func c01Loop(l *core.Ledger, r *rt, rl *replyLoop) {
 		return
 	}
 	qf := rl.qfCalls[0]
-	selNode := sx.NodeOf(rl.sel)
-
 	// ---- R2 arguments
 	a0 := sx.Origins(qf.Call.Args[0])
 	okMsg := sx.All(a0, sx.IsFieldNamed("Message", func(o sx.Origin) bool {
@@ -183,10 +191,22 @@ func c01Loop(l *core.Ledger, r *rt, rl *replyLoop) {
 		u, ok := n.Instr().(*ssa.MapUpdate)
 		return ok && u.Map == mm
 	}
-	if _, must := sx.MustPassThrough(selNode, isUpdate, sx.IsInstr(qf)); must {
-		l.OK("C01-R4", key+"/call-after-write", qf.Pos(), "every path from the select to the call stores the new reply first")
+	okCAW := true
+	for _, rp := range rl.recvs {
+		if _, must := sx.MustPassThrough(sx.NodeOf(rp.sel), isUpdate, sx.IsInstr(qf)); !must {
+			okCAW = false
+		}
+	}
+	if okCAW {
+		l.OK("C01-R4", key+"/call-after-write", qf.Pos(), "every path from a receive to the call stores the new reply first")
 	} else {
 		l.Bad("C01-R4", key+"/call-after-write", qf.Pos(), "the quorum function can be called in an iteration that added no reply (e.g. after an error)")
+	}
+	// one invocation per newly arrived reply: between two reply-map writes the function is called
+	for i, u := range updates {
+		if _, skip := sx.Reach(sx.NodeOf(u), isUpdate, sx.Query{BlockNode: sx.IsInstr(qf)}); skip {
+			l.Bad("C01-R4", fmt.Sprintf("%s/one-call-per-reply%d", key, i), u.Pos(), "two replies can be stored in the reply set without the quorum function being invoked in between: intermediate reply sets are never shown to it (a quorum reachable only at an intermediate set is missed)")
+		}
 	}
 	// the verdict test must be evaluated before the next wait (one call per reply, result consumed)
 	qts := rl.quorumTests(qf)
